@@ -628,6 +628,12 @@ Crash ==
                     (x % HF(cfg)) \notin CrashFr(e, HugeOf(cfg, x)))
          /\ Chk("C05", "completed-allocation-can-be-freed",
                 \A b \in held : \E i \in DOMAIN e.puts : e.puts[i] = <<b[1], b[2], 1>>)
+         \* a started free touches the frames it names: the rest of the block it belongs to stays allocated
+         /\ Chk("C05", "rest-of-partly-freed-block-still-allocated",
+                \A t \in inflight :
+                   (pend[t].op = "put" /\ Has(pend[t], "of")) =>
+                      \A x \in BlockFrames(pend[t].of[1], pend[t].of[2]) \ BlockFrames(pend[t].frame, pend[t].order) :
+                         (x % HF(cfg)) \notin CrashFr(e, HugeOf(cfg, x)))
          /\ Chk("C05", "free-frames-stay-free", Cover(missing \ known, orders))
          /\ Chk("C05", "recovered-counts-agree", e.ts[1] = e.stats[1] /\ e.validate = "ok")
          /\ Chk("C05", "recovered-exact-count",
